@@ -40,7 +40,12 @@ Theorem C07_stable_byte : forall sep : Z, stable unit record (byte_split sep).
 Proof. exact byte_stable. Qed.
 Print Assumptions C07_stable_byte.
 
-(* blankLineSplitter (RS = "") observed without RT is stable *)
+(* blankLineSplitter (RS = ""), tokens ($0, RT), is stable (since the repair of F-C07-2 and
+   F-C07-3; before, only the RT-less observation was) *)
+Theorem C07_stable_blank : stable unit record blank_full.
+Proof. exact blank_full_stable. Qed.
+Print Assumptions C07_stable_blank.
+
 Theorem C07_stable_blank_records : stable unit bytes blank_rec.
 Proof. exact blank_rec_stable. Qed.
 Print Assumptions C07_stable_blank_records.
@@ -74,25 +79,26 @@ Proof.
 Qed.
 Print Assumptions C07_rs_change_partial.
 
-(* goawk, RS <> "": the sequence of ($0, RT) - hence NR - does not depend on the delivery.
-   For a regex RS this needs match_final (guard excluding F-C07-1). *)
+(* goawk, every RS: the sequence of ($0, RT) - hence NR - does not depend on the delivery.
+   For a regex RS this needs match_final (guard excluding F-C07-1, F-C07-1b). *)
 Theorem C07_goawk_chunk_independence_partial : forall (find : bytes -> option (Z * Z)),
   (forall d s e, find d = Some (s, e) -> 0 <= s /\ s <= e /\ e <= zlen d) ->
-  forall rs, rs <> [] -> (rs_is_regex rs = true -> match_final find) ->
+  forall rs, (rs_is_regex rs = true -> match_final find) ->
   forall last_eof chunks, reader_ok last_eof O chunks ->
   scan unit record (goawk_split rs find) last_eof tt chunks
   = scan unit record (goawk_split rs find) false tt [concat chunks].
 Proof. exact goawk_chunk_independence. Qed.
 Print Assumptions C07_goawk_chunk_independence_partial.
 
-(* goawk, RS = "": the sequence of $0 (and NR) does not depend on the delivery (RT does:
-   F-C07-2, F-C07-3 below) *)
-Theorem C07_blank_chunk_partial : forall (find : bytes -> option (Z * Z)),
+(* goawk, RS = "": the sequence of ($0, RT) and NR does not depend on the delivery, no guard
+   (was C07_blank_chunk_partial, records only, while F-C07-2 / F-C07-3 were open) *)
+Theorem C07_blank_chunk_independence : forall (find : bytes -> option (Z * Z)),
+  (forall d s e, find d = Some (s, e) -> 0 <= s /\ s <= e /\ e <= zlen d) ->
   forall last_eof chunks, reader_ok last_eof O chunks ->
-  map_r record bytes fst (scan unit record (goawk_split [] find) last_eof tt chunks)
-  = map_r record bytes fst (scan unit record (goawk_split [] find) false tt [concat chunks]).
-Proof. exact goawk_blank_records_chunk_independent. Qed.
-Print Assumptions C07_blank_chunk_partial.
+  scan unit record (goawk_split [] find) last_eof tt chunks
+  = scan unit record (goawk_split [] find) false tt [concat chunks].
+Proof. exact goawk_blank_chunk_independent. Qed.
+Print Assumptions C07_blank_chunk_independence.
 
 (* for every RS and every delivery reading ends normally: no split function panics, advances
    outside the data or delivers a token without advancing *)
@@ -133,7 +139,7 @@ Proof. exact lines_spec. Qed.
 Print Assumptions C07_lines_spec.
 
 (* RS = "", input without CR: the records are the blank-line separated paragraphs (maximal
-   runs of non-empty lines joined by "\n"); with C07_blank_chunk_partial: under every delivery *)
+   runs of non-empty lines joined by "\n"); with C07_blank_chunk_independence: under every delivery *)
 Theorem C07_paragraph_spec : forall (find : bytes -> option (Z * Z)) (data : bytes),
   ~ In 13 data ->
   map fst (fst (reference unit record (goawk_split [] find) tt data)) = paragraphs data.
@@ -144,38 +150,20 @@ Example C07_ex_paragraphs :           (* "\na\nb\n\n\nc\n" -> "a\nb", "c" *)
   paragraphs [10; 97; 10; 98; 10; 10; 10; 99; 10] = [[97; 10; 98]; [99]].
 Proof. vm_compute. reflexivity. Qed.
 
-(* RS = "": leading newlines, then each record followed by its RT, reproduce the input *)
-Definition C07_blank_RT_statement : Prop :=
-  forall data : bytes, ~ In 13 data ->
+(* RS = "", input without CR: leading newlines, then each record followed by its RT, reproduce
+   the input (was C07_blank_RT_statement, refuted by "\nabc\n" while F-C07-3 was open) *)
+Theorem C07_blank_RT_lossless : forall (find : bytes -> option (Z * Z)) (data : bytes),
+  ~ In 13 data ->
   ztake (skip_nl data) data ++
   concat (map (fun t => fst t ++ snd t)
-            (fst (reference unit record (goawk_split [] (find RNone)) tt data))) = data.
-
-(* F-C07-3: input "\nabc\n": record abc gets RT "c\n" (data[len(token):] ignores the skipped "\n") *)
-Theorem C07_blank_RT_offset_refuted : ~ C07_blank_RT_statement.
-Proof.
-  intros H. specialize (H [10; 97; 98; 99; 10]).
-  assert (N : ~ In 13 [10; 97; 98; 99; 10]) by (cbn; intuition discriminate).
-  specialize (H N). vm_compute in H. discriminate H.
-Qed.
-Print Assumptions C07_blank_RT_offset_refuted.
-
-Example C07_blank_RT_offset_witness :
-  fst (reference unit record (goawk_split [] (find RNone)) tt [10; 97; 98; 99; 10])
-  = [([97; 98; 99], [99; 10])].
-Proof. vm_compute. reflexivity. Qed.
-
-(* ... it holds when the input does not start with a newline (guard excluding F-C07-3) *)
-Theorem C07_blank_RT_partial : forall (find : bytes -> option (Z * Z)) (data : bytes),
-  ~ In 13 data -> skip_nl data = 0 ->
-  concat (map (fun t => fst t ++ snd t)
             (fst (reference unit record (goawk_split [] find) tt data))) = data.
-Proof. exact blank_reconstruct_partial. Qed.
-Print Assumptions C07_blank_RT_partial.
+Proof. exact blank_reconstruct. Qed.
+Print Assumptions C07_blank_RT_lossless.
 
-Example C07_ex_blank_RT_partial_hyp :
-  ~ In 13 [97; 10; 98; 10; 10; 10; 99; 10] /\ skip_nl [97; 10; 98; 10; 10; 10; 99; 10] = 0.
-Proof. split; [cbn; intuition discriminate|reflexivity]. Qed.
+Example C07_ex_blank_RT_offset :       (* the former F-C07-3 witness "\nabc\n": RT is "\n" *)
+  fst (reference unit record (goawk_split [] (find RNone)) tt [10; 97; 98; 99; 10])
+  = [([97; 98; 99], [10])].
+Proof. vm_compute. reflexivity. Qed.
 
 (* ------------------------------------------------------------------ the full statement and where the pinned tree violates it *)
 
@@ -218,24 +206,12 @@ Example C07_regex_nontouching_witness :
     = [([120], [97; 98; 99; 100]); ([121], [])].
 Proof. split; vm_compute; reflexivity. Qed.
 
-(* F-C07-2: RS = "", reads "a\n\n" then "\nb": RT of record 1 is "\n\n", all at once "\n\n\n" *)
-Theorem C07_blank_RT_refuted :
-  ~ (forall last_eof chunks, reader_ok last_eof O chunks ->
-     scan unit record (goawk_split [] (find RNone)) last_eof tt chunks
-     = scan unit record (goawk_split [] (find RNone)) false tt [concat chunks]).
-Proof.
-  intros H.
-  specialize (H false [[97; 10; 10]; [10; 98]]).
-  assert (R : reader_ok false O [[97; 10; 10]; [10; 98]]) by (cbn; exact I).
-  specialize (H R). vm_compute in H. discriminate H.
-Qed.
-Print Assumptions C07_blank_RT_refuted.
-
-Example C07_blank_RT_witness :
-  fst (scan unit record (goawk_split [] (find RNone)) false tt [[97; 10; 10]; [10; 98]])
-    = [([97], [10; 10]); ([98], [98])] /\
-  fst (scan unit record (goawk_split [] (find RNone)) false tt [[97; 10; 10; 10; 98]])
-    = [([97], [10; 10; 10]); ([98], [])].
+(* the former F-C07-2 witness: RS = "", reads "a\n\n" then "\nb": RT of record 1 is "\n\n\n" *)
+Example C07_ex_blank_RT_run :
+  scan unit record (goawk_split [] (find RNone)) false tt [[97; 10; 10]; [10; 98]]
+    = ([([97], [10; 10; 10]); ([98], [])], Done) /\
+  scan unit record (goawk_split [] (find RNone)) false tt [[97; 10; 10; 10; 98]]
+    = ([([97], [10; 10; 10]); ([98], [])], Done).
 Proof. split; vm_compute; reflexivity. Qed.
 
 (* ------------------------------------------------------------------ non-vacuity *)
@@ -244,8 +220,8 @@ Proof. split; vm_compute; reflexivity. Qed.
 Example C07_ex_reader_ok : reader_ok true O [[97]; []; []; [44; 98]; []].
 Proof. cbn. repeat split; unfold max_empty_reads; lia. Qed.
 
-Example C07_ex_byte_run :               (* RS = 0xFF (byteSplitter itself handles any byte) *)
-  scan unit record (byte_split 255) true tt [[97]; []; [255; 98]; [255]]
+Example C07_ex_byte_run :               (* RS = 0xFF: newScanner picks byteSplitter *)
+  scan unit record (goawk_split [255] (find RNone)) true tt [[97]; []; [255; 98]; [255]]
   = ([([97], [255]); ([98], [255])], Done).
 Proof. vm_compute. reflexivity. Qed.
 
